@@ -64,6 +64,15 @@ def batched(ctx, total, make_case, judge=None, batch=100, use_model=True):
     return fails
 
 
+def distrust_known_by_world(fails):
+    """same rule for harnesses that keep one flat failure list: failures carry `.world`"""
+    for f in fails:
+        w = getattr(f, "world", None)
+        if w is not None and getattr(w, "corr_failed", False) and f.kind == "oracle" and f.sig is not None:
+            f.desc += " [signature %s not accepted: model and implementation disagree on this very case]" % f.sig
+            f.sig = None
+
+
 def generic_replay(ctx, case, check=None):
     """replay an op list; `check(world) -> [Failure]` re-evaluates the property oracle"""
     from .props.replay_ops import replay_ops
